@@ -23,7 +23,7 @@
                           start together behind a pthread_barrier and run their scripts:
                             mK:N lock/unlock mutex K N times (counter K ++), tK:N trylock+sched_yield loop,
                             dK:N timedlock with a far deadline, s:N spin lock (counter NM ++),
-                            S:N pthread_spin_trylock loop, y sched_yield, uN usleep(N), nN nanosleep(N ns)
+                            S:N pthread_spin_trylock loop, y sched_yield, Y pthread_yield, uN usleep(N), nN nanosleep(N ns)
      tryheld T K H        main acquires a mutex of kind K (i/a/s) by lock (H=l) or trylock (H=t), creates T
                           threads which trylock (EBUSY expected) and timedlock with a 3 ms deadline
                           (ETIMEDOUT expected); main joins, unlocks, then trylock/unlock again
@@ -39,20 +39,24 @@
      keys K T DM ; t k v ; t k v ...
                           K keys, key j has the counting destructor iff bit j of DM; then per entry
                           thread t stores value v (>0; 0 = store NULL) under key k, in order;
-                          non-NULL destructor calls are counted and summed; NULL-value destructor
-                          calls are reported on a separate line
+                          every key with a destructor has its own destructor function: the destructor calls
+                          are reported exactly (thread:key:value); calls with a NULL value and the key values
+                          handed out are reported on separate lines
      detach T MODES       T detached threads, mode per thread: a = detachstate attribute,
                           c = creator calls pthread_detach, s = pthread_detach(pthread_self());
                           completion through a counter + condition variable
-     ids T                pthread_self / pthread_equal while all threads are alive
-     sleep T US..         T threads, thread t sleeps US[t] microseconds (even t: usleep, odd t:
-                          nanosleep), checks rc = 0 and elapsed >= requested; plus sleep(0)
+     ids T                pthread_self / pthread_equal while all threads are alive; the number of OS threads of the
+                          process at that moment (/proc/self/task) is reported on a separate line
+     sleep T SPEC..       T threads, one SPEC each: [u|n|s|a]N[xR]  u = usleep(N us), n = nanosleep(N us), s = sleep(N s),
+                          a = usleep(N ms) started in the last N/2 ms of a CLOCK_REALTIME second; a bare number = usleep
+                          (even t) / nanosleep (odd t); xR = R times with some computation in between; every sleep must
+                          return 0 and not earlier than requested on CLOCK_MONOTONIC and CLOCK_REALTIME; plus sleep(0)
      solo OPS             the main thread alone, one operation per letter, in order (possibly the very first
                           use of the library): b count-1 barrier, s/B signal/broadcast without waiters, S the same on
                           a PTHREAD_COND_INITIALIZER object, m lock/unlock, l lock/unlock/destroy of a static mutex,
                           t trylock twice on a static mutex (0 then EBUSY), d timedlock twice (0 then ETIMEDOUT),
                           p spin lock + trylock (EBUSY), o pthread_once twice, k key create/set/get/delete,
-                          y sched_yield, u usleep(0)+nanosleep, i pthread_self/equal
+                          y sched_yield, Y pthread_yield, u usleep(0)+nanosleep, i pthread_self/equal
      noyield              directive: the scenes make no sched_yield / sleep call from here on
      exit N M             exit status N; M=0 return from main, M=1 exit(N) in main,
                           M=2 exit(N) called by a created thread
@@ -70,6 +74,7 @@
 #include <time.h>
 #include <unistd.h>
 #include <stdint.h>
+#include <dirent.h>
 
 /* ---------------------------------------------------------------- rc table */
 enum { C_create, C_join, C_detach, C_attr_init, C_attr_destroy, C_attr_setdetachstate,
@@ -80,7 +85,7 @@ enum { C_create, C_join, C_detach, C_attr_init, C_attr_destroy, C_attr_setdetach
        C_condattr_init, C_condattr_destroy,
        C_barrier_init, C_barrier_destroy, C_barrier_wait,
        C_spin_init, C_spin_destroy, C_spin_lock, C_spin_trylock, C_spin_unlock,
-       C_once, C_key_create, C_key_delete, C_setspecific, C_sched_yield,
+       C_once, C_key_create, C_key_delete, C_setspecific, C_sched_yield, C_pthread_yield,
        C_usleep, C_nanosleep, C_sleep, C_equal_self, C_internal, C_NCALLS };
 static const char *cname[C_NCALLS] = {
   "pthread_create", "pthread_join", "pthread_detach", "pthread_attr_init", "pthread_attr_destroy",
@@ -93,7 +98,7 @@ static const char *cname[C_NCALLS] = {
   "pthread_barrier_init", "pthread_barrier_destroy", "pthread_barrier_wait",
   "pthread_spin_init", "pthread_spin_destroy", "pthread_spin_lock", "pthread_spin_trylock",
   "pthread_spin_unlock", "pthread_once", "pthread_key_create", "pthread_key_delete",
-  "pthread_setspecific", "sched_yield", "usleep", "nanosleep", "sleep", "pthread_equal(self,self)",
+  "pthread_setspecific", "sched_yield", "pthread_yield", "usleep", "nanosleep", "sleep", "pthread_equal(self,self)",
   "internal-check" };
 #define NVAL 6
 static volatile long rc_val[C_NCALLS][NVAL];
@@ -145,6 +150,31 @@ static long now_ns(void) {
   struct timespec ts;
   clock_gettime(CLOCK_MONOTONIC, &ts);
   return ts.tv_sec * 1000000000L + ts.tv_nsec;
+}
+
+
+/* number of OS threads of this process (entries of /proc/self/task) */
+static int os_threads(void) {
+  DIR *d = opendir("/proc/self/task");
+  struct dirent *e;
+  int n = 0;
+  if (!d) return -1;
+  while ((e = readdir(d)) != NULL) if (e->d_name[0] != '.') n++;
+  closedir(d);
+  return n;
+}
+static void busy_ns(long ns) { long t0 = now_ns(); while (now_ns() - t0 < ns) { } }
+/* joined / detached threads of earlier scenes may still be leaving the kernel: take the minimum over a
+   window that ends when the count has not decreased for a while */
+static int os_threads_settled(void) {
+  int m = os_threads(), still = 0, i;
+  for (i = 0; i < 400 && still < 25; i++) {
+    int n;
+    busy_ns(200000);
+    n = os_threads();
+    if (n < m) { m = n; still = 0; } else still++;
+  }
+  return m;
 }
 
 /* pools of statically initialised objects: every scene takes fresh ones */
@@ -344,6 +374,7 @@ static void *locks_thread(void *a_) {
       }
       break;
     case 'y': YIELD(); break;
+    case 'Y': if (g_yield) CHK(C_pthread_yield, pthread_yield()); break;
     case 'u': CHK(C_usleep, usleep((useconds_t)n)); break;
     case 'n': { struct timespec ts = { 0, n }; CHK(C_nanosleep, nanosleep(&ts, NULL)); break; }
     default: rc_note(C_internal, 3); return NULL;
@@ -643,17 +674,40 @@ static void scene_once(char *args) {
 
 /* ---------------------------------------------------------------- keys */
 #define MAXK 40
-static volatile long dtor_calls, dtor_sum, dtor_null;
-static void key_dtor(void *v) {
-  if (v == NULL) { __sync_fetch_and_add(&dtor_null, 1); return; }
-  __sync_fetch_and_add(&dtor_calls, 1);
-  __sync_fetch_and_add(&dtor_sum, (long)(intptr_t)v);
+/* every key with a destructor gets its OWN destructor function out of a pool of 256, so that a call (also one
+   with a NULL value) identifies the key incarnation it was made for; the calling thread is pthread_self() */
+#define NPOOL 256
+#define MAXDLOG 16384
+typedef struct { pthread_t self; int g; long v; } dlog_t;
+static dlog_t dlog[MAXDLOG];
+static volatile long n_dlog;
+static void dtor_log(int g, void *v) {
+  long i = __sync_fetch_and_add(&n_dlog, 1);
+  if (i < MAXDLOG) { dlog[i].self = pthread_self(); dlog[i].g = g; dlog[i].v = (long)(intptr_t)v; }
 }
+#define DT(p, d) static void dt_##p##d(void *v) { dtor_log(0x##p##d, v); }
+#define DT16(p) DT(p,0) DT(p,1) DT(p,2) DT(p,3) DT(p,4) DT(p,5) DT(p,6) DT(p,7) DT(p,8) DT(p,9) DT(p,a) DT(p,b) DT(p,c) DT(p,d) DT(p,e) DT(p,f)
+DT16(0) DT16(1) DT16(2) DT16(3) DT16(4) DT16(5) DT16(6) DT16(7) DT16(8) DT16(9) DT16(a) DT16(b) DT16(c) DT16(d) DT16(e) DT16(f)
+#define DN(p, d) dt_##p##d,
+#define DN16(p) DN(p,0) DN(p,1) DN(p,2) DN(p,3) DN(p,4) DN(p,5) DN(p,6) DN(p,7) DN(p,8) DN(p,9) DN(p,a) DN(p,b) DN(p,c) DN(p,d) DN(p,e) DN(p,f)
+static void (*dtor_pool[NPOOL])(void *) = { DN16(0) DN16(1) DN16(2) DN16(3) DN16(4) DN16(5) DN16(6) DN16(7) DN16(8) DN16(9) DN16(a) DN16(b) DN16(c) DN16(d) DN16(e) DN16(f) };
+static struct { int scene, j; unsigned long keyval; } pool_info[NPOOL];
+static int n_pool;
+static int pool_take(int j) {
+  if (n_pool >= NPOOL) { fprintf(stderr, "c16_prog: out of destructor functions\n"); exit(99); }
+  pool_info[n_pool].scene = scene_no; pool_info[n_pool].j = j;
+  return n_pool++;
+}
+
 typedef struct { int k; long v; } kset_t;
-typedef struct { pthread_key_t *keys; int K; kset_t set[64]; int nset; long fresh, match; } keys_arg_t;
+typedef struct { pthread_key_t *keys; int K; kset_t set[64]; int nset; long fresh, match; pthread_t self; pthread_barrier_t *start; } keys_arg_t;
 static void *keys_thread(void *a_) {
   keys_arg_t *a = (keys_arg_t *)a_;
-  int i;
+  int i, r;
+  a->self = pthread_self();
+  /* nobody exits before everybody has been created: thread ids are not reused within the scene */
+  r = pthread_barrier_wait(a->start);
+  if (r != 0 && r != PTHREAD_BARRIER_SERIAL_THREAD) rc_note(C_barrier_wait, r);
   for (i = 0; i < a->K; i++) if (pthread_getspecific(a->keys[i]) == NULL) a->fresh++;
   for (i = 0; i < a->nset; i++) {
     CHK(C_setspecific, pthread_setspecific(a->keys[a->set[i].k], (void *)(intptr_t)a->set[i].v));
@@ -662,18 +716,38 @@ static void *keys_thread(void *a_) {
   }
   return NULL;
 }
+typedef struct { int t, old; long k, v; } dent_t;     /* thread, made for a key of an earlier scene?, key index / key value, value */
+static int dent_cmp(const void *a_, const void *b_) {
+  const dent_t *a = (const dent_t *)a_, *b = (const dent_t *)b_;
+  if (a->t != b->t) return a->t < b->t ? -1 : 1;
+  if (a->old != b->old) return a->old < b->old ? -1 : 1;
+  if (a->k != b->k) return a->k < b->k ? -1 : 1;
+  if (a->v != b->v) return a->v < b->v ? -1 : 1;
+  return 0;
+}
 static void scene_keys(char *args) {
   static keys_arg_t ka[MAXT];
+  static dent_t ent[MAXDLOG];
   pthread_key_t keys[MAXK];
   pthread_t tid[MAXT];
+  pthread_barrier_t start;
   char *rest = args, *head = next_part(&rest), *part;
-  int K, T, i;
+  int K, T, i, ne = 0, first;
   unsigned long DM;
-  long fresh = 0, match = 0;
+  long fresh = 0, match = 0, log0, log1, l;
   if (sscanf(head, "%d %d %lu", &K, &T, &DM) != 3 || K < 1 || K > MAXK || T < 1 || T > MAXT) { fprintf(stderr, "c16_prog: bad keys scene\n"); exit(98); }
-  dtor_calls = dtor_sum = dtor_null = 0;
-  for (i = 0; i < K; i++) CHK(C_key_create, pthread_key_create(&keys[i], ((DM >> i) & 1) ? key_dtor : NULL));
-  for (i = 0; i < T; i++) { ka[i].keys = keys; ka[i].K = K; ka[i].nset = 0; ka[i].fresh = ka[i].match = 0; }
+  log0 = n_dlog;
+  for (i = 0; i < K; i++) {
+    if ((DM >> i) & 1) {
+      int g = pool_take(i);
+      CHK(C_key_create, pthread_key_create(&keys[i], dtor_pool[g]));
+      pool_info[g].keyval = (unsigned long)keys[i];
+    } else {
+      CHK(C_key_create, pthread_key_create(&keys[i], NULL));
+    }
+  }
+  CHK(C_barrier_init, pthread_barrier_init(&start, NULL, (unsigned)T));
+  for (i = 0; i < T; i++) { ka[i].keys = keys; ka[i].K = K; ka[i].nset = 0; ka[i].fresh = ka[i].match = 0; ka[i].start = &start; }
   while ((part = next_part(&rest)) != NULL) {
     int t, k; long v;
     if (sscanf(part, "%d %d %ld", &t, &k, &v) != 3) continue;
@@ -682,11 +756,34 @@ static void scene_keys(char *args) {
   }
   for (i = 0; i < T; i++) CHK(C_create, pthread_create(&tid[i], NULL, keys_thread, &ka[i]));
   for (i = 0; i < T; i++) { CHK(C_join, pthread_join(tid[i], NULL)); fresh += ka[i].fresh; match += ka[i].match; }
+  log1 = n_dlog < MAXDLOG ? n_dlog : MAXDLOG;
   /* the main thread never stored anything: every key reads NULL here */
   for (i = 0; i < K; i++) if (pthread_getspecific(keys[i]) == NULL) fresh++;
+  for (l = log0; l < log1; l++) {
+    int t = -1, g = dlog[l].g;
+    for (i = 0; i < T; i++) if (pthread_equal(dlog[l].self, ka[i].self)) { t = i; break; }
+    ent[ne].t = t; ent[ne].v = dlog[l].v;
+    if (pool_info[g].scene == scene_no) { ent[ne].old = 0; ent[ne].k = pool_info[g].j; }
+    else { ent[ne].old = 1; ent[ne].k = (long)pool_info[g].keyval; }
+    ne++;
+  }
+  qsort(ent, (size_t)ne, sizeof(ent[0]), dent_cmp);
+  /* destructor calls with a non-NULL value: thread:key:value (a key of an earlier scene: thread:x<key value>:value) */
+  printf("S%d keys fresh=%ld match=%ld dtors=", scene_no, fresh, match);
+  for (i = 0, first = 1; i < ne; i++) if (ent[i].v != 0) {
+    printf(ent[i].old ? "%s%d:x%ld:%ld" : "%s%d:%ld:%ld", first ? "" : ",", ent[i].t, ent[i].k, ent[i].v); first = 0; }
+  printf("\n");
+  /* destructor calls with a NULL value (none on a conforming implementation) */
+  printf("S%d keys.null_dtor_calls=", scene_no);
+  for (i = 0, first = 1; i < ne; i++) if (ent[i].v == 0) {
+    printf(ent[i].old ? "%s%d:x%ld" : "%s%d:%ld", first ? "" : ",", ent[i].t, ent[i].k); first = 0; }
+  printf("\n");
+  /* the key values the implementation handed out (implementation specific; not compared) */
+  printf("S%d keys.ids=", scene_no);
+  for (i = 0; i < K; i++) printf("%s%lu", i ? "," : "", (unsigned long)keys[i]);
+  printf("\n");
   for (i = 0; i < K; i++) CHK(C_key_delete, pthread_key_delete(keys[i]));
-  printf("S%d keys dtor_calls=%ld dtor_sum=%ld fresh=%ld match=%ld\n", scene_no, (long)dtor_calls, (long)dtor_sum, fresh, match);
-  printf("S%d keys.null_dtor_calls=%ld\n", scene_no, (long)dtor_null);
+  CHK(C_barrier_destroy, pthread_barrier_destroy(&start));
 }
 
 /* ---------------------------------------------------------------- detach */
@@ -752,7 +849,7 @@ static void *ids_thread(void *a_) {
   return NULL;
 }
 static void scene_ids(char *args) {
-  int T, i, j, r, selfok = 0, match = 0, distinct = 0, notmain = 0;
+  int T, i, j, r, selfok = 0, match = 0, distinct = 0, notmain = 0, osn;
   ids_arg_t ia[MAXT];
   pthread_t tid[MAXT];
   pthread_barrier_t b1, b2;
@@ -769,41 +866,85 @@ static void scene_ids(char *args) {
     if (!pthread_equal(tid[i], pthread_self())) notmain++;
     for (j = i + 1; j < T; j++) if (!pthread_equal(tid[i], tid[j])) distinct++;
   }
+  osn = os_threads_settled();          /* all T threads are alive (blocked in the second barrier) */
   r = pthread_barrier_wait(&b2);
   if (r != 0 && r != PTHREAD_BARRIER_SERIAL_THREAD) rc_note(C_barrier_wait, r);
   for (i = 0; i < T; i++) CHK(C_join, pthread_join(tid[i], NULL));
   printf("S%d ids self=%d match=%d notmain=%d distinct=%d\n", scene_no, selfok, match, notmain, distinct);
+  /* OS threads of the process while T user threads were alive (configuration specific: T+1 on the system
+     library; number of workers, independent of T, when the calls are redirected to MassiveThreads) */
+  printf("S%d ids.os_threads=%d users=%d\n", scene_no, osn, T);
   CHK(C_barrier_destroy, pthread_barrier_destroy(&b1));
   CHK(C_barrier_destroy, pthread_barrier_destroy(&b2));
 }
 
 /* ---------------------------------------------------------------- sleep */
-typedef struct { long us; int me, ok; } sleep_arg_t;
+static long real_ns(void) {
+  struct timespec ts;
+  clock_gettime(CLOCK_REALTIME, &ts);
+  return ts.tv_sec * 1000000000L + ts.tv_nsec;
+}
+typedef struct { char kind; long us; int rep; int me, ok, n; } sleep_arg_t;
+/* one sleep of [us] microseconds through the function chosen by [kind]; 1 iff it returned 0 and not earlier
+   than requested on CLOCK_MONOTONIC and on CLOCK_REALTIME (the latter with 1 ms of slack for adjustments) */
+static int one_sleep(char kind, long us, int me) {
+  long m0 = now_ns(), r0 = real_ns(), m1, r1;
+  if (kind == 'u') {
+    CHK(C_usleep, usleep((useconds_t)us));
+  } else if (kind == 's') {
+    CHK(C_sleep, sleep((unsigned)(us / 1000000)));
+  } else {
+    struct timespec ts = { us / 1000000, (us % 1000000) * 1000 }, rem = { 0, 0 };
+    CHK(C_nanosleep, nanosleep(&ts, me % 4 == 1 ? &rem : NULL));
+  }
+  m1 = now_ns(); r1 = real_ns();
+  return (m1 - m0 >= us * 1000) && (r1 - r0 >= us * 1000 - 1000000);
+}
 static void *sleep_thread(void *a_) {
   sleep_arg_t *a = (sleep_arg_t *)a_;
-  long t0 = now_ns(), t1;
-  if (a->me % 2 == 0) {
-    CHK(C_usleep, usleep((useconds_t)a->us));
-  } else {
-    struct timespec ts = { a->us / 1000000, (a->us % 1000000) * 1000 }, rem = { 0, 0 };
-    CHK(C_nanosleep, nanosleep(&ts, a->me % 4 == 1 ? &rem : NULL));
+  int i;
+  for (i = 0; i < a->rep; i++) {
+    if (a->kind == 'a') {
+      /* start the sleep in the last [us]/2 of a wall-clock second, so that now + request crosses the second */
+      long guard = now_ns();
+      for (;;) {
+        long f = real_ns() % 1000000000L;
+        if (f >= 1000000000L - a->us * 500 || now_ns() - guard > 1500000000L) break;
+        YIELD();
+      }
+      a->ok += one_sleep('u', a->us, a->me);
+    } else {
+      /* some computation of varying length between two sleeps (de-synchronises from the timer tick) */
+      if (i > 0) busy_ns(100000L * ((i * 7 + a->me * 3) % 11));
+      a->ok += one_sleep(a->kind, a->us, a->me);
+    }
+    a->n++;
   }
-  t1 = now_ns();
-  a->ok = (t1 - t0 >= a->us * 1000);
   return NULL;
 }
 static void scene_sleep(char *args) {
-  int T, i, ok = 0;
+  int T, i, ok = 0, n = 0;
   sleep_arg_t sa[MAXT];
   pthread_t tid[MAXT];
   char *save = NULL, *tok = strtok_r(args, " ", &save);
   T = tok ? atoi(tok) : 0;
   if (T < 1 || T > MAXT) { fprintf(stderr, "c16_prog: bad sleep scene\n"); exit(98); }
-  for (i = 0; i < T; i++) { tok = strtok_r(NULL, " ", &save); sa[i].us = tok ? atol(tok) : 0; sa[i].me = i; sa[i].ok = 0; }
+  for (i = 0; i < T; i++) {
+    char *x;
+    tok = strtok_r(NULL, " ", &save);
+    sa[i].me = i; sa[i].ok = 0; sa[i].n = 0; sa[i].rep = 1; sa[i].kind = (i % 2 == 0) ? 'u' : 'n'; sa[i].us = 0;
+    if (!tok) continue;
+    if (*tok == 'u' || *tok == 'n' || *tok == 's' || *tok == 'a') sa[i].kind = *tok++;
+    sa[i].us = strtol(tok, &x, 10);
+    if (sa[i].kind == 's') sa[i].us *= 1000000L;          /* s<seconds> */
+    if (sa[i].kind == 'a') sa[i].us *= 1000L;             /* a<milliseconds> */
+    if (*x == 'x') sa[i].rep = atoi(x + 1);
+    if (sa[i].rep < 1 || sa[i].rep > 50) sa[i].rep = 1;
+  }
   for (i = 0; i < T; i++) CHK(C_create, pthread_create(&tid[i], NULL, sleep_thread, &sa[i]));
   if (g_yield) CHK(C_sleep, sleep(0));
-  for (i = 0; i < T; i++) { CHK(C_join, pthread_join(tid[i], NULL)); ok += sa[i].ok; }
-  printf("S%d sleep ok=%d\n", scene_no, ok);
+  for (i = 0; i < T; i++) { CHK(C_join, pthread_join(tid[i], NULL)); ok += sa[i].ok; n += sa[i].n; }
+  printf("S%d sleep ok=%d of=%d\n", scene_no, ok, n);
 }
 
 /* ---------------------------------------------------------------- solo */
@@ -873,7 +1014,8 @@ static void scene_solo(char *args) {
       if (solo_once_cnt == before + 1) ok++;
       break; }
     case 'k': { pthread_key_t k; int good;
-      CHK(C_key_create, pthread_key_create(&k, key_dtor));
+      CHK(C_key_create, pthread_key_create(&k, dtor_pool[pool_take(-1)]));
+      pool_info[n_pool - 1].keyval = (unsigned long)k;
       good = pthread_getspecific(k) == NULL;
       CHK(C_setspecific, pthread_setspecific(k, (void *)(intptr_t)1234));
       good = good && (long)(intptr_t)pthread_getspecific(k) == 1234;
@@ -883,6 +1025,7 @@ static void scene_solo(char *args) {
       if (good) ok++;
       break; }
     case 'y': CHK(C_sched_yield, sched_yield()); ok++; break;
+    case 'Y': CHK(C_pthread_yield, pthread_yield()); ok++; break;
     case 'u': CHK(C_usleep, usleep(0)); { struct timespec ts = { 0, 1000 }; CHK(C_nanosleep, nanosleep(&ts, NULL)); } ok++; break;
     case 'i': if (pthread_equal(pthread_self(), pthread_self())) ok++; else rc_note(C_equal_self, 1); break;
     default: rc_note(C_internal, 5); break;
